@@ -82,7 +82,7 @@ fn roundtrip_text(text: &str, case: &mut Case) -> Result<(), String> {
     case.key = text.to_string();
     let ast = opening_hours_syntax::parse(text).map_err(|e| e.to_string())?;
     let oh = OpeningHours::parse(text).map_err(|e| e.to_string())?;
-    let g = GenCase { text: text.to_string(), ast, oh, holidays: Default::default(), base_year: 2020 };
+    let g = GenCase { text: text.to_string(), denoted: ast.clone(), ast, oh, holidays: Default::default(), base_year: 2020 };
     let choices: Vec<u16> = (0..400u32).map(|i| (i.wrapping_mul(40503) >> 3) as u16).collect();
     let mut ch = Choices::new(&choices);
     let mut units = 0;
